@@ -43,7 +43,9 @@ impl EventGen for ReuseElement {
         instance_element.eval_attributes(context).inspect_err(|_| {
             context.pop_element();
         })?;
-        let instance_size = instance_element.size(context)?;
+        let instance_size = instance_element.size(context).inspect_err(|_| {
+            context.pop_element();
+        })?;
 
         // Override 'default' attr values in the target
         for (attr, value) in reuse_element.get_attrs() {
@@ -99,11 +101,14 @@ impl EventGen for ReuseElement {
         // TODO: This isn't ideal. resolve_position() is needed to handle
         // relpos positioning (`xy="#a|h"` etc), but the Position-based
         // stuff fully handles other positioning. Should be unified.
-        reuse_element.resolve_position(context)?;
+        reuse_element.resolve_position(context).inspect_err(|_| {
+            context.pop_element();
+        })?;
 
-        let inst_el = context
-            .get_element(&elref)
-            .ok_or_else(|| SvgdxError::ReferenceError(elref.clone()))?;
+        let Some(inst_el) = context.get_element(&elref) else {
+            context.pop_element();
+            return Err(SvgdxError::ReferenceError(elref));
+        };
         let mut pos = Position::from(&reuse_element);
         if let Some(bb) = inst_el.content_bbox {
             pos.update_size(&bb.size());
